@@ -520,6 +520,10 @@ func (h *hist) checkQuiescent(when string, o checkOpts) *view {
 			return nil
 		}
 	}
+	if err := pool.VerifCheckInternals(); err != nil {
+		h.violation(h.internalsClass(err), fmt.Sprintf("%s: %v", when, err))
+		return nil
+	}
 	// limits
 	locals := pool.Locals()
 	cfg := h.cfg
@@ -548,10 +552,6 @@ func (h *hist) checkQuiescent(when string, o checkOpts) *view {
 	}
 	if uint64(v.nq) >= cfg.GlobalQueue {
 		h.feat("queue-full")
-	}
-	if err := pool.VerifCheckInternals(); err != nil {
-		h.violation(h.internalsClass(err), fmt.Sprintf("%s: %v", when, err))
-		return nil
 	}
 	h.c.Evals(4 + len(hashes))
 	h.c.Max("max_pending", int64(v.np))
